@@ -8,6 +8,7 @@ import (
 	"errors"
 	"flag"
 	"fmt"
+	"io"
 	"runtime"
 	"strings"
 	"sync"
@@ -88,10 +89,11 @@ type l4Case struct {
 	TxEnd      string   `json:"txEnd"`     // after | before-query | between (Query created, then tx ended, then run)
 	Finishers  []string `json:"finishers"` // commit / rollback calls after the operation
 	Concurrent int      `json:"concurrent"`
-	Op         string   `json:"op"`    // get | getall | run | iter
-	Dests      string   `json:"dests"` // valid | invalid | none | outcome+valid | niloutcome+valid | outcome | outcome+invalid
-	Calls      []string `json:"calls"` // iter: next get getoutcome getniloutcome getinvalid close
+	Op         string   `json:"op"`       // get | getall | run | iter
+	Dests      string   `json:"dests"`    // valid | invalid | none | outcome+valid | niloutcome+valid | outcome | outcome+invalid
+	Calls      []string `json:"calls"`    // iter: next get getoutcome getniloutcome getinvalid close
 	CancelAt   int      `json:"cancelAt"` // iter: cancel the context before this call index (-1 never)
+	ErrWrap    int      `json:"errWrap"`  // which sentinel the injected driver errors wrap (0 none)
 	// PreCtx: a preliminary Run() of the same Statement on the same DB/TX before the
 	// operation proper: "" none, "live", "cancelled" (its context is already cancelled)
 	PreCtx string `json:"preCtx"`
@@ -104,16 +106,16 @@ type l4Case struct {
 	// Ctx = marker | nil | deadline-live) runs; AEnd = cancel | deadline | release.
 	// OtherShape: the runs before the operation proper (cache warm-up, preliminary run) use
 	// another slice length, i.e. other SQL: the operation proper misses the cache
-	OtherShape bool   `json:"otherShape,omitempty"`
+	OtherShape bool `json:"otherShape,omitempty"`
 	// BeginCancel: the context given to Begin is cancelled after the operation and
 	// database/sql has rolled the transaction back on its own before Commit / Rollback are
 	// called: they must all report that the transaction is over
 	BeginCancel bool `json:"beginCancel,omitempty"`
 	// GAOutcome (getall only): a non-nil *Outcome is passed in front of the slice arguments;
 	// GetAll clears it and goes on exactly as without it
-	GAOutcome bool `json:"gaOutcome,omitempty"`
-	PairOp     string `json:"pairOp,omitempty"`
-	AEnd   string `json:"aEnd,omitempty"`
+	GAOutcome bool   `json:"gaOutcome,omitempty"`
+	PairOp    string `json:"pairOp,omitempty"`
+	AEnd      string `json:"aEnd,omitempty"`
 }
 
 // IDs is the slice input of the layer's statements: its length decides the generated SQL,
@@ -338,6 +340,9 @@ func genL4(r *rng.R) *l4Case {
 	if strings.HasPrefix(c.Path, "tx") && c.TxEnd == "after" && c.Concurrent == 0 && r.Chance(1, 5) {
 		c.BeginCancel = true
 	}
+	if r.Chance(1, 2) {
+		c.ErrWrap = 1 + r.Intn(5)
+	}
 	return c
 }
 
@@ -388,29 +393,47 @@ func errText(err error) string {
 
 func inj(n int) error { return fmt.Errorf("INJ%d", n) }
 
+// injWrap is an injected error that wraps one of the sentinel errors the library or
+// database/sql compare against: a driver failure stays a failure whatever it wraps.
+func injWrap(n, flavour int) error {
+	switch flavour {
+	case 1:
+		return fmt.Errorf("INJ%d: %w", n, context.Canceled)
+	case 2:
+		return fmt.Errorf("INJ%d: %w", n, context.DeadlineExceeded)
+	case 3:
+		return fmt.Errorf("INJ%d: %w", n, sql.ErrNoRows)
+	case 4:
+		return fmt.Errorf("INJ%d: %w", n, sql.ErrTxDone)
+	case 5:
+		return fmt.Errorf("INJ%d: %w", n, io.EOF)
+	}
+	return inj(n)
+}
+
 var modelledEvents = map[string]string{"prepare": "prepare", "exec": "exec", "query": "query", "next": "next",
 	"rowsclose": "rowsClose", "stmtclose": "stmtClose", "begin": "begin", "commit": "commit", "rollback": "rollback"}
 
 type l4Obs struct {
-	Returns   []string        `json:"returns"` // per call / per operation result, symbolic
-	Events    []string        `json:"events"`
-	EventCtx  []string        `json:"eventCtx"`  // ctx info of prepare/exec/query events
-	EventConn []int           `json:"eventConn"` // conn of every modelled event
-	InUse     int             `json:"inUse"`
-	OpenRows  int             `json:"openRows"`
-	DoubleClose int           `json:"doubleClose"`
-	ClosedUse int             `json:"closedUse"`
-	Stored    int64           `json:"stored"`   // Get: Row.A after the call
-	Prior     bool            `json:"priorKept"` // GetAll: prior elements unchanged
-	Appended  []int64         `json:"appended"`
-	Outcome   string          `json:"outcome"` // "" none, "nil", "r:<rows affected>"
-	Finish    []string        `json:"finish"`
-	Winners   int             `json:"winners"`
-	PreReturn string          `json:"preReturn"`
-	RowsFaithful bool         `json:"rowsFaithful"`
-	BeginConn int             `json:"beginConn"`
-	Panic     string          `json:"panic,omitempty"`
-	Extra     map[string]any  `json:"extra,omitempty"`
+	Returns      []string       `json:"returns"` // per call / per operation result, symbolic
+	Events       []string       `json:"events"`
+	EventCtx     []string       `json:"eventCtx"`  // ctx info of prepare/exec/query events
+	EventConn    []int          `json:"eventConn"` // conn of every modelled event
+	InUse        int            `json:"inUse"`
+	OpenRows     int            `json:"openRows"`
+	DoubleClose  int            `json:"doubleClose"`
+	ClosedUse    int            `json:"closedUse"`
+	Stored       int64          `json:"stored"`    // Get: Row.A after the call
+	Prior        bool           `json:"priorKept"` // GetAll: prior elements unchanged
+	Appended     []int64        `json:"appended"`
+	Outcome      string         `json:"outcome"` // "" none, "nil", "r:<rows affected>"
+	Finish       []string       `json:"finish"`
+	Winners      int            `json:"winners"`
+	PreReturn    string         `json:"preReturn"`
+	RowsFaithful bool           `json:"rowsFaithful"`
+	BeginConn    int            `json:"beginConn"`
+	Panic        string         `json:"panic,omitempty"`
+	Extra        map[string]any `json:"extra,omitempty"`
 }
 
 func waitFor(cond func() bool) {
@@ -475,16 +498,16 @@ func runL4Case(c *l4Case) (obs *l4Obs) {
 		}
 	}
 	if c.PrepareErr {
-		sc.Faults = append(sc.Faults, fakedrv.Fault{Kind: "prepare", N: 0, Err: inj(1)})
+		sc.Faults = append(sc.Faults, fakedrv.Fault{Kind: "prepare", N: 0, Err: injWrap(1, c.ErrWrap)})
 	}
 	if c.RunErr {
-		sc.Faults = append(sc.Faults, fakedrv.Fault{Kind: "exec", N: 0, Err: inj(2)}, fakedrv.Fault{Kind: "query", N: 0, Err: inj(2)})
+		sc.Faults = append(sc.Faults, fakedrv.Fault{Kind: "exec", N: 0, Err: injWrap(2, c.ErrWrap)}, fakedrv.Fault{Kind: "query", N: 0, Err: injWrap(2, c.ErrWrap)})
 	}
 	if c.FetchErrAt >= 0 {
-		sc.Faults = append(sc.Faults, fakedrv.Fault{Kind: "next", N: c.FetchErrAt, Err: inj(3)})
+		sc.Faults = append(sc.Faults, fakedrv.Fault{Kind: "next", N: c.FetchErrAt, Err: injWrap(3, c.ErrWrap)})
 	}
 	if c.CloseErr {
-		sc.Faults = append(sc.Faults, fakedrv.Fault{Kind: "rowsclose", N: 0, Err: inj(4)})
+		sc.Faults = append(sc.Faults, fakedrv.Fault{Kind: "rowsclose", N: 0, Err: injWrap(4, c.ErrWrap)})
 	}
 	sc.ExtraResultSets = c.ExtraSets
 
